@@ -156,47 +156,7 @@ func ghostOperand(f *Frame, st, old *State, idx []spec.Expr, args []spec.Expr) T
 	}
 	if v, known := fe.truth(isConst); known && v {
 		val := par.selectField(e, "Value", fe.create)
-		vs := val.V.(*Struct)
-		// expression well-formedness (assumed for operands): a typed constant's Value has the
-		// kind of its Type
-		x.note("expression well-formedness (assumed for operands): the Value of a constant operand has the kind of its Type")
-		x.assumeGlobal(x.B.Eq(x.rkind(x.B.UF("rv_of", rvSort, vs.Fields[0].(*smt.Term), x.scalar(vs.Fields[1], nil))), x.B.BVC(k, 64)))
-		// reflect.Value.Int / Uint of a value of a narrow kind is the extension of that value
-		if bt, ok := gt.(*types.Basic); ok && (kindCategory(k) == "int" || kindCategory(k) == "uint") {
-			w := basicSort(bt).W
-			typT, payT := vs.Fields[0].(*smt.Term), x.scalar(vs.Fields[1], nil)
-			switch kindCategory(k) {
-			case "int":
-				if w < 64 {
-					v := x.B.UF("iface_int", I64, typT, payT)
-					x.assumeGlobal(x.B.Eq(v, x.B.SignExt(64-w, x.B.Extract(w-1, 0, v))))
-				}
-			case "uint":
-				if w < 64 {
-					v := x.B.UF("iface_uint", I64, typT, payT)
-					x.assumeGlobal(x.B.Eq(v, x.B.ZeroExt(64-w, x.B.Extract(w-1, 0, v))))
-				}
-			}
-		}
-		cv := x.ifaceConst(vs, k)
-		// constants are exact values (go/constant): a floating-point constant is never negative zero
-		nz := func(t *smt.Term) {
-			if t.S.K == smt.KFP {
-				x.note("constant operands (assumed): a floating-point constant is never negative zero (go/constant holds exact values)")
-				x.assumeGlobal(x.B.Not(x.B.And(x.B.FPPred("fp.isZero", t), x.B.FPPred("fp.isNegative", t))))
-			}
-		}
-		switch c := cv.(type) {
-		case *smt.Term:
-			nz(c)
-		case *Struct:
-			for _, fl := range c.Fields {
-				if t, ok := fl.(*smt.Term); ok {
-					nz(t)
-				}
-			}
-		}
-		return TV{cv, gt}
+		return TV{x.wfConst(val.V.(*Struct), k, gt), gt}
 	}
 	fun := par.selectField(e, "Fun", fe.create).V.(*Struct)
 	callee := x.simplifyUnder(st.PC, x.scalar(fun.Fields[1], nil))
@@ -230,7 +190,53 @@ func ghostConstant(f *Frame, st, old *State, idx []spec.Expr, args []spec.Expr) 
 	if gt == nil {
 		specErr("constant() of kind %s", kindNames[k])
 	}
-	return TV{x.ifaceConst(i.V.(*Struct), k), gt}
+	return TV{x.wfConst(i.V.(*Struct), k, gt), gt}
+}
+
+// wfConst: the value of the constant held in the interface vs, in kind k, together with the
+// well-formedness facts assumed about constants handed to compile functions: the dynamic type of
+// the interface has kind k; Int()/Uint() of a narrow kind is the extension of a value of that
+// kind; a floating-point constant is never negative zero (go/constant holds exact values).
+func (x *Exec) wfConst(vs *Struct, k uint64, gt types.Type) Value {
+	typT, payT := vs.Fields[0].(*smt.Term), x.scalar(vs.Fields[1], nil)
+	x.note("expression well-formedness (assumed for operands): the Value of a constant operand has the kind of its Type")
+	x.assumeGlobal(x.B.Eq(x.rkind(x.B.UF("rv_of", rvSort, typT, payT)), x.B.BVC(k, 64)))
+	if bt, ok := gt.(*types.Basic); ok && (kindCategory(k) == "int" || kindCategory(k) == "uint") {
+		w := basicSort(bt).W
+		if w < 64 {
+			if kindCategory(k) == "int" {
+				v := x.B.UF("iface_int", I64, typT, payT)
+				x.assumeGlobal(x.B.Eq(v, x.B.SignExt(64-w, x.B.Extract(w-1, 0, v))))
+			} else {
+				v := x.B.UF("iface_uint", I64, typT, payT)
+				x.assumeGlobal(x.B.Eq(v, x.B.ZeroExt(64-w, x.B.Extract(w-1, 0, v))))
+			}
+		}
+	}
+	// an interface holding a value of a predeclared basic type has that type's kind
+	for kk := uint64(kBool); kk <= kString; kk++ {
+		if t := KindType(kk); t != nil {
+			x.assumeGlobal(x.B.Implies(x.B.Eq(typT, x.typeID(t)), x.B.Eq(x.rkind(x.B.UF("rv_of", rvSort, typT, payT)), x.B.BVC(kk, 64))))
+		}
+	}
+	cv := x.ifaceConst(vs, k)
+	nz := func(t *smt.Term) {
+		if t.S.K == smt.KFP {
+			x.note("constant operands (assumed): a floating-point constant is never negative zero (go/constant holds exact values)")
+			x.assumeGlobal(x.B.Not(x.B.And(x.B.FPPred("fp.isZero", t), x.B.FPPred("fp.isNegative", t))))
+		}
+	}
+	switch c := cv.(type) {
+	case *smt.Term:
+		nz(c)
+	case *Struct:
+		for _, fl := range c.Fields {
+			if t, ok := fl.(*smt.Term); ok {
+				nz(t)
+			}
+		}
+	}
+	return cv
 }
 
 // up(env, n): the n-th enclosing frame.
